@@ -139,6 +139,8 @@ class TxnEngine(pair.PairEngine):
             return {((0 if sv else 1), sv, tag, ex) for (m, sv, tag, ex) in st}
         if k == 'inverse':
             return {(0, sv, tag, ex) for (m, sv, tag, ex) in st}
+        if k == 'unsnap':
+            return {(m, 0, tag, ex) for (m, sv, tag, ex) in st}
         if k in ('call', 'call_nob'):
             callee, cidx = e[1], e[2]
             summ = self.summary.get((callee, cidx), frozenset())
